@@ -186,9 +186,14 @@ def run(ctx):
     # ---- R4 truncation guard on the current cursor
     mf = MustFacts(dec)
     for c2 in [mk[0]] + [x for q in m.body_paths() for x in q.calls(D.SEG + "::SegmentedPacket", D.SEG + "::addSegment")]:
-        fs = mf.at(c2)
+        at = dec.node(c2["_site"]) if c2.get("_site") is not None else c2  # an element of a spliced helper runs at the helper's call site
+        fs = mf.at(at)
         want = "ASAM::CMP::Packet::isValidPacket(%s, %s)" % (cursor, sizev)
         ok = any(a[0] == "truth" and a[2] is True and a[1] == want for a in fs)
+        if c2.get("_site") is not None:
+            # inside the helper the message is the helper's (pointer, size) parameters, bound to the cursor pair at the call
+            a2 = facts.effective_call(c2).get("args", [])
+            ok = ok and len(a2) >= 2 and strip_all_casts(a2[0]).get("decl") == cursor and strip_all_casts(a2[1]).get("decl") == sizev
         res.check(ok, "C04-R4", "guard:%s" % (callee_name(c2) or "").split("::")[-1][:30], c2.get("loc"), "dominated by isValidPacket(cursor, remaining) on the current values",
                   "a message is consumed without isValidPacket having been evaluated on the current cursor and remaining size")
     # the validator itself is right (shared with C03-R4): a message is "complete" exactly when header and declared payload lie inside the remaining bytes
